@@ -51,6 +51,16 @@ Definition build (start : Z) (order : list nat) : option st :=
   | _ => Some (mkst start (map new_conn order) 0 [])
   end.
 
+(* The ReadySCs map as gRPC hands it over: SubConn id |-> (key of Address.Addr, key of Address.ServerName).
+   The map is keyed by the SubConn, so the ids are distinct, but several SubConns may carry the same Addr
+   (differing in ServerName / Attributes, or not at all).  Build (p2c.go:52-59) ranges over the map and makes
+   one subConn per ENTRY; the Address is only recorded (logStats prints it), it plays no role in identity. *)
+Definition ready_set := list (nat * (Z * Z)).
+Definition build_ready (start : Z) (ready : ready_set) (order : list nat) : option st := build start order.
+(* the Address recorded in the i-th subConn *)
+Definition conn_addrs (ready : ready_set) (order : list nat) : list (option (Z * Z)) :=
+  map (fun id => alookup Nat.eqb id ready) order.
+
 Definition set_nth {A} (i : nat) (x : A) (l : list A) : list A :=
   firstn i l ++ match skipn i l with [] => [] | _ :: r => x :: r end.
 
